@@ -947,7 +947,7 @@ class ExpressionTransform:
         interpolator = Interpolator(
             expr.value, node.braces_required,
             translate=node.translation,
-            decode_htmlentities=True
+            decode_htmlentities=node.decode_htmlentities
         )
         compiler = engine.get_compiler(interpolator, expr.value, True, ())
         return compiler(target, engine, "text")
